@@ -1307,6 +1307,29 @@ def _row_tallies(ctx, inp):
                 ctx.tally("scores:explicit-0")
 
 
+def _shape_tallies(ctx, inp):
+    """clips on one side only, evaluated clips without any item, sound events without geometry"""
+    pc = [c["clip"] for c in inp["predictions"]]
+    ac = [c["clip"] for c in inp["annotations"]]
+    if set(pc) - set(ac):
+        ctx.tally("shape:clip-only-predicted")
+    if set(ac) - set(pc):
+        ctx.tally("shape:clip-only-annotated")
+    ann = {c["clip"]: c for c in inp["annotations"]}
+    for c in inp["predictions"]:
+        a = ann.get(c["clip"])
+        if a is None:
+            continue
+        if inp["task"] in ("clip_classification", "clip_multilabel_classification"):
+            if not c.get("tags") and not a.get("tags"):
+                ctx.tally("shape:evaluated-clip-without-any-tag")
+        else:
+            if not c.get("events") and not a.get("events"):
+                ctx.tally("shape:evaluated-clip-without-sound-events")
+            if any(e["geom"] is None for e in c.get("events", []) + a.get("events", [])):
+                ctx.tally("shape:sound-event-without-geometry")
+
+
 def _stage_task(ctx, t, n):
     cases = [gen_task(ctx.rng, t) for _ in range(n)]
     # the top-3 boundary: vocabularies of exactly 1, 2, 3, 4 tags
@@ -1315,6 +1338,7 @@ def _stage_task(ctx, t, n):
     for c in cases:
         _tag_tallies(ctx, c)
         _row_tallies(ctx, c)
+        _shape_tallies(ctx, c)
     ctx.run_cases(OPS[t], cases)
 
 
